@@ -908,7 +908,7 @@ def run(ctx):
     rres = programs.pmap(lambda tx: run_files(binary, base, tx), rtexts)
     rmv = model_verdicts(ctx, rterms, "rnd")
     r_acc = r_rej = r_other = r_dis = 0
-    for tx, r, m, term in zip(rtexts, rres, rmv, rterms):
+    for tx, r, m, term, rp in zip(rtexts, rres, rmv, rterms, rprogs):
         v = verdict(*r)
         if v == "panic":
             ctx.report("panic:random", "compiler/runtime panic on a generated const program", {"files": tx, "stderr": r[2][-800:]})
@@ -928,7 +928,7 @@ def run(ctx):
             r_dis += 1
             diag = [l.strip() for l in r[1].splitlines() if l.strip().startswith("=")]
             ctx.report("correspondence:random", "Const/Model.v check says %s, compiler says %s (%s)" % ("accept" if m[0] else "reject", v, diag[:1]),
-                       {"files": tx, "verdict": v, "stdout": r[1][-1200:], "model": {"check_fixed": m[0], "check_head": m[1]},
+                       {"files": tx, "verdict": v, "stdout": r[1][-1200:], "model": {"check_fixed": m[0], "check_head": m[1]}, "ast": repr(rp),
                         "correspondence": "Const/Model.v check vs compiler verdict on random nested programs"}, found_input=False)
     dis += r_dis
 
